@@ -24,8 +24,17 @@ CFGS = {
     'small': {'hold_time': 9, 'idle_hold_time': 5, 'connect_retry_time': 40},
     'retry10': {'connect_retry_time': 10, 'hold_time': 30},
     'idle0': {'idle_hold_time': 0, 'connect_retry_time': 20},      # no damping at all: the restart follows at once
+    'v6': {'idle_hold_time': 5, '_local_addr': '2001:db8::1', '_remote_addr': '2001:db8::2'},      # an IPv6 transport session
 }
-DEPTH = {'quick': {'default': (3, 6), 'small': (3, 5), 'retry10': (3, 5), 'idle0': (3, 5)}, 'thorough': {'default': (4, 8), 'small': (4, 8), 'retry10': (4, 8), 'idle0': (4, 7)}}
+
+
+def wkw(cfgname):
+    """World keyword arguments of a named configuration (keys with an underscore are not timer options)"""
+    c = CFGS[cfgname]
+    kw = dict(time_opts={k: v for k, v in c.items() if not k.startswith('_')})
+    kw.update({k[1:]: v for k, v in c.items() if k.startswith('_')})
+    return kw
+DEPTH = {'quick': {'default': (3, 6), 'small': (3, 5), 'retry10': (3, 5), 'idle0': (3, 5), 'v6': (3, 4)}, 'thorough': {'default': (4, 8), 'small': (4, 8), 'retry10': (4, 8), 'idle0': (4, 7), 'v6': (4, 6)}}
 PARTS = {'quick': 4, 'thorough': 5}
 WALKS = {'quick': (256, 250), 'thorough': (10000, 600)}
 BUDGET = {'quick': 300, 'thorough': 1000}
@@ -77,7 +86,7 @@ class OpMonitor(Monitor):
 def fresh_open(cfgname, peer_hold):
     k = (cfgname, peer_hold)
     if k not in _fresh:
-        w = World(time_opts=CFGS[cfgname])
+        w = World(**wkw(cfgname))
         res = S.cooperate(w, 60, hold=peer_hold)
         _fresh[k] = res['opens'][0] if res['opens'] else None
     return _fresh[k]
@@ -150,7 +159,7 @@ def continuation(r, cfgname, peer_hold, stats):
 def cadence_case(cfgname, fault, n, defer=False):
     """the same fault n times in a row: the pace of the reconnections must not depend on how many came before
     (nothing in the past changes what the next session is offered, or when).  Returns (violations, attempts seen)"""
-    w = World(time_opts=CFGS[cfgname], defer_close=defer)
+    w = World(defer_close=defer, **wkw(cfgname))
     times, V = [], []
     guard = 0
     while len(times) < n and guard < 40 * n:
@@ -223,7 +232,7 @@ def plan(tier, seed):
 
 def run_shard(sh):
     res = dict(evaluations=0, counters={}, maxima={}, sets={}, distinct=[], samples=[], violations=[])
-    cfg = dict(time_opts=CFGS[sh['cfg']])
+    cfg = wkw(sh['cfg'])
     if sh.get('defer'):
         cfg['defer_close'] = True
     stats = dict(continued=0, stable=0, opens_compared=0, max_recovery=0.0, by_state={}, by_fault={}, second_faults=0, late_closes=0)
@@ -254,7 +263,8 @@ def run_shard(sh):
             continuation(r, sh['cfg'], sh['peer_hold'], stats)
             grab(r)
         ex = S.bfs_shard(cfg, [OpMonitor], S.ALPHABET_C01, sh['d0'], sh['depth'], sh['part'], sh['nparts'],
-                         multi=False, on_state=on_state, time_budget=sh['budget'], start=sh.get('start'))
+                         multi=False, on_state=on_state, time_budget=sh['budget'], start=sh.get('start'),
+                         rest=('R_ROOT',) if sh.get('start') else ())
         res['evaluations'] = stats['continued']
         res['distinct'] = ['%s|%d' % (sh['cfg'], hash(k)) for k in ex.seen]
         res['counters'] = dict(executed_sequences=ex.execs, executed_events=ex.events, states=len(ex.seen),
@@ -275,7 +285,8 @@ def run_shard(sh):
                 break
             r = S.random_walk(cfg, [OpMonitor], alpha, rng, rng.randint(20, sh['length']), multi=False,
                               weights={'TICK': 5, 'ACCEPT': 4, 'REFUSE': 2, 'STOP': 0.3, 'START': 1.5, 'OPEN': 3, 'KA': 3,
-                                       'OPEN_h1': 2, 'OPEN_h0': 2, 'OPEN_h2': 2, 'NOTI_VER': 2, 'PEERRESET': 2})
+                                       'OPEN_h1': 2, 'OPEN_h0': 2, 'OPEN_h2': 2, 'NOTI_VER': 2, 'PEERRESET': 2},
+                              rest=('R_ROOT', 'R_PEERS', 'R_UPD', 'R_RR6'))
             if r.monitors[0].stopped:
                 r.step('START')
             continuation(r, sh['cfg'], sh['peer_hold'], stats)
@@ -319,7 +330,7 @@ def replay(rep):
         return cadence_case(*rep['cadence'])[0]
     S.register_fuzz(rep.get('fuzz'))
     r = S.run_seq(rep['cfg'], rep['events'], [OpMonitor])
-    cfgname = [k for k, v in CFGS.items() if v == rep['cfg'].get('time_opts')]
+    cfgname = [k for k in CFGS if wkw(k).get('time_opts') == rep['cfg'].get('time_opts') and wkw(k).get('local_addr') == rep['cfg'].get('local_addr')]
     stats = dict(continued=0, stable=0, opens_compared=0, max_recovery=0.0, by_state={}, by_fault={}, second_faults=0, late_closes=0)
     out = []
     for ph in PEER_HOLDS:
